@@ -119,3 +119,14 @@ MUTANTS += [
     ('C14-pwm-applied-after-driving-torque', ['C02'], S, "        self._compute_motor_control(motor_control=motor_control)\n        self._compute_driving_torque()", "        self._compute_driving_torque()\n        self._compute_motor_control(motor_control=motor_control)"),
     ('C14-truthiness-filter', ['C14'], PW, "            [pwm_value is not None for pwm_value in pwm_values]", "            [bool(pwm_value) for pwm_value in pwm_values]"),
 ]
+RU = 'gearpy/motor_control/rules/utils.py'
+MUTANTS += [
+    ('C15-timer-half-open', ['C15'], 'gearpy/sensors/timer.py', "            ((current_time - self.start_time) <= self.duration)", "            ((current_time - self.start_time) < self.duration)"),
+    ('C15-braking-without-static-error', ['C15'], 'gearpy/motor_control/rules/reach_angular_position.py', "            self.__braking_angle + regime_angular_position_error\n", "            self.__braking_angle\n"),
+    ('C15-ramp-from-zero', ['C15'], 'gearpy/motor_control/rules/start_proportional_to_angular_position.py', "                self.__target_angular_position + pwm_min", "                self.__target_angular_position"),
+    ('C15-limit-current-other-root', ['C15'], 'gearpy/motor_control/rules/start_limit_current.py', "                speed_ratio + electric_ratio + np.sqrt(", "                speed_ratio + electric_ratio - np.sqrt("),
+    ('C15-start-target-strict', ['C15'], 'gearpy/motor_control/rules/start_limit_current.py', "        if angular_position <= self.__target_angular_position:", "        if angular_position < self.__target_angular_position*0.999:"),
+    ('C15-revert-D12', ['C15'], RU, "        )*AngularPosition(braking_angle.value, braking_angle.unit)", "        )*braking_angle"),
+    ('C15-revert-D13', ['C15'], RU, "isinstance(element, SpurGear | WormGear)", "isinstance(element, SpurGear)"),
+    ('C15-limit-current-2i0-dropped', ['C15'], 'gearpy/motor_control/rules/start_limit_current.py', "                            2*no_load_electric_current", "                            no_load_electric_current"),
+]
